@@ -184,10 +184,16 @@ structure St where
 def showPc (op : Option COp) : Pc → String
   | .idle => "I"
   | .waiting => "W"
-  | .body rest _ =>
-    let total := match op with | some (.edit cs) => cs.length | _ => 0
-    s!"B{total - rest.length}"
+  | .body _ rest _ => s!"B{total - rest.length}"
   | .done => "D"
+  | .idleC => "Ic"
+  | .waitC true => "Wc"
+  | .waitC false => "Wm"
+  | .bodyC _ rest _ => s!"B{total - rest.length}c"
+  | .cancelled => "X"
+  | .aborted _ => "A"
+where
+  total : Nat := match op with | some (.edit cs) => cs.length | _ => 0
 
 def showNats (xs : List Nat) : String := ",".intercalate (xs.map toString)
 
@@ -247,6 +253,17 @@ def step (st : St) (line : String) : St × String :=
       | none => (st, "disabled")
     | some t, .csql prog ini s =>
       match Sys.run sqlBackend prog s t with
+      | some s' => ({ st with m := .csql prog ini s' }, "ok " ++ showSys showSqlStore prog s')
+      | none => (st, "disabled")
+    | _, _ => (st, "bad-op")
+  | ["ccancel", ts] =>
+    match parseNat? ts, st.m with
+    | some t, .cmem prog ini s =>
+      match Sys.cancel s t with
+      | some s' => ({ st with m := .cmem prog ini s' }, "ok " ++ showSys showMemStore prog s')
+      | none => (st, "disabled")
+    | some t, .csql prog ini s =>
+      match Sys.cancel s t with
       | some s' => ({ st with m := .csql prog ini s' }, "ok " ++ showSys showSqlStore prog s')
       | none => (st, "disabled")
     | _, _ => (st, "bad-op")
